@@ -799,6 +799,15 @@ def run_gen(tier, rep):
     if not tlc.require_ok(gen, rep, "design"):
         return None
     rep.add_tlc(gen)
+    if tier != "quick":
+        # unbounded companion: Apalache / Z3 prove that doubled areas and first moments are additive under splitting a triangle at
+        # an arbitrary fourth point and invariant under cyclic node order, for ALL integer coordinates; failure = machinery error
+        import subprocess
+        r = subprocess.run([common.SPECS + "/apalache/run_generic.sh", "PolyMeshAll.tla", "All", "NegControl"],
+                           capture_output=True, text=True)
+        rep.coverage["apalache"] = [l for l in r.stdout.splitlines() if l.startswith("APALACHE")]
+        if r.returncode != 0:
+            rep.machinery("apalache check of PolyMeshAll.tla failed: %s" % r.stdout[-400:])
     for a in ("PickMesh", "EvalMono"):
         if gen.action_counts.get(a, 0) == 0:
             rep.machinery("design spec action %s was never taken" % a)
